@@ -297,6 +297,28 @@ def characterise_reader(facts, rb):
         ip = enum_paths(ib)
     except PathLimit:
         return None
+    unit16 = None
+    if encoding is None and any(c and (c.endswith("String::from_utf16") or c.endswith("String::from_utf16_lossy") or c.endswith("char::decode_utf16"))
+                                for c in callee_set(ib, facts)):
+        # the helper decodes whole 16-bit code units; their byte order is decided where the caller reads them:
+        # the closure handed over by this reader
+        srcs = set()
+        for blk in rb.blocks:
+            for st_ in blk["stmts"]:
+                if st_["k"] != "assign":
+                    continue
+                for x in walk(rb.term_of_rvalue(st_["rv"])):
+                    if x[0] == "agg" and x[1] == "closure" and x[2] in facts.bodies:
+                        for bb_, t_ in facts.bodies[x[2]].calls():
+                            n_ = callee_names(t_)[1] or callee_names(t_)[0] or ""
+                            if n_.endswith("BinArchiveReader::<'a>::read_u16") or n_.endswith("BinArchive::read_u16"):
+                                srcs.add("UTF_16(archive endianness)")
+                            elif n_.endswith("ReadBytesExt::read_u16"):
+                                g_ = str(t_["fn"]["k"].get("gargs") if isinstance(t_.get("fn"), dict) and isinstance(t_["fn"].get("k"), dict) else "")
+                                srcs.add("UTF_16LE" if "LittleEndian" in g_ else ("UTF_16BE" if "BigEndian" in g_ else "?"))
+        if len(srcs) == 1 and "?" not in srcs:
+            encoding = srcs.pop()
+            unit16 = True
     term = None
     for p in ip:
         if p.end == "ret" and is_err_term(p.ret) is False:
@@ -314,6 +336,10 @@ def characterise_reader(facts, rb):
                             zero_tests += len(a[4])
             reads = len([e for e in p.events if e["k"] == "call" and e["callee"] and e["callee"].endswith("FnMut::call_mut")])
             term = (zero_tests, reads)
+            if unit16:
+                z16 = [1 for (bb, t, vals, neg, dty) in p.conds if dty == "u16" and ((0 in vals) != neg)]
+                z16 += [1 for (bb, t, vals, neg, dty) in p.conds if t[0] == "bin" and t[1] == "Eq" and t[3][:2] == ("const", 0) and len(t[3]) > 2 and t[3][2] == "u16" and ((vals == (0,)) == neg)]
+                term = (2 * len(z16), 2 * reads) if z16 else term
     unit_ = 2 if (encoding or "").startswith("UTF_16") else 1
     untested = untested_reads(ip) if unit_ == 1 else None
     if closed is not None:
